@@ -26,6 +26,10 @@ func chanRole(v ssa.Value) string {
 				return structName(st) + "." + st.Underlying().(*types.Struct).Field(fa.Field).Name()
 			}
 			if a, ok := u.X.(*ssa.Alloc); ok && a.Comment != "" {
+				// a local that only ever holds nil or one channel field is that field's role
+				if r := localAliasRole(a); r != "" {
+					return r
+				}
 				return a.Parent().Name() + "." + a.Comment
 			}
 			if fv, ok := u.X.(*ssa.FreeVar); ok {
@@ -41,6 +45,48 @@ func chanRole(v ssa.Value) string {
 		return chanRole(u.X)
 	}
 	return ""
+}
+
+// localAliasRole: every store into the local is nil or a load of one and the same channel
+// field, and its address is used for nothing but loads and stores.
+func localAliasRole(a *ssa.Alloc) string {
+	role := ""
+	if a.Referrers() == nil {
+		return ""
+	}
+	for _, ref := range *a.Referrers() {
+		switch r := ref.(type) {
+		case *ssa.Store:
+			if r.Addr != ssa.Value(a) {
+				return "" // the address itself is stored somewhere
+			}
+			if c, ok := r.Val.(*ssa.Const); ok && c.IsNil() {
+				continue
+			}
+			u, ok := r.Val.(*ssa.UnOp)
+			if !ok || u.Op != token.MUL {
+				return ""
+			}
+			fa, ok := u.X.(*ssa.FieldAddr)
+			if !ok {
+				return ""
+			}
+			st := derefType(fa.X.Type())
+			rr := structName(st) + "." + st.Underlying().(*types.Struct).Field(fa.Field).Name()
+			if role != "" && role != rr {
+				return ""
+			}
+			role = rr
+		case *ssa.UnOp:
+			if r.Op != token.MUL {
+				return ""
+			}
+		case *ssa.DebugRef:
+		default:
+			return "" // captured by a closure, passed on, ...
+		}
+	}
+	return role
 }
 
 func lastKey(s Sort) string {
@@ -173,6 +219,11 @@ func (x *Exec) doRecv(st *State, u *ssa.UnOp, chv Val, chSSA ssa.Value, commaOk 
 		st.heap[ghClosed] = Store(carr, ch, Or(x.closedAt(st, carr, ch), Not(ok)))
 		st.add(Implies(Not(ok), Eq(v, zeroOf(et))))
 	}
+	if ct := x.P.ChanInv[chanRole(chSSA)]; ct != nil && neverSent(ct) {
+		// nothing is ever sent on this role: the receive completes because the channel is closed
+		ok = False
+		st.add(Eq(v, zeroOf(et)))
+	}
 	if ct := x.P.ChanInv[chanRole(chSSA)]; ct != nil && len(ct.Requires) > 0 && commaOk {
 		// role with a closing message: nothing is sent after it (obligation on the sender side),
 		// so once the receiver has closed the channel it is empty
@@ -187,17 +238,48 @@ func (x *Exec) doRecv(st *State, u *ssa.UnOp, chv Val, chSSA ssa.Value, commaOk 
 	x.yield(st)
 }
 
-func (x *Exec) recvFacts(st *State, chSSA ssa.Value, ch, v *Term, et types.Type, ok *Term) {
-	// the object whose field the channel is (b for b.bsOk): `self` in channel clauses
-	x.recvSelf = nil
+// selfOfChan: the object whose field the channel is (b for b.bsOk): `self` in channel clauses.
+func selfOfChan(st *State, chSSA ssa.Value) *specBinding {
 	if u, isU := chSSA.(*ssa.UnOp); isU {
 		if fa, isFA := u.X.(*ssa.FieldAddr); isFA {
 			if bv, has := st.regs[fa.X]; has && bv.T != nil {
-				x.recvSelf = &specBinding{Val{T: bv.T}, fa.X.Type()}
+				return &specBinding{Val{T: bv.T}, fa.X.Type()}
 			}
 		}
 	}
+	return nil
+}
+
+// neverSent: the role's invariant is literally `false` - no send can be proved, so a receive
+// that completes has seen the channel closed.
+func neverSent(ct *Contract) bool {
+	for _, cl := range ct.Ensures {
+		if cl.Expr != nil && cl.Expr.Kind == "bool" && cl.Expr.Lit == "false" {
+			return true
+		}
+	}
+	return false
+}
+
+func (x *Exec) recvFacts(st *State, chSSA ssa.Value, ch, v *Term, et types.Type, ok *Term) {
+	x.recvSelf = selfOfChan(st, chSSA)
 	defer func() { x.recvSelf = nil }()
+	if ct := x.P.ChanInv[chanRole(chSSA)]; ct != nil && len(ct.OnClose) > 0 {
+		carr := st.heapArr(ghClosed, heapSorts[ghClosed])
+		if neverSent(ct) {
+			st.heap[ghClosed] = Store(carr, ch, True) // learned: only a close completes this receive
+		}
+		binds := map[string]specBinding{"ch": {Val{T: ch}, chSSA.Type()}}
+		if x.recvSelf != nil {
+			binds["self"] = *x.recvSelf
+		}
+		closedNow := x.closedAt(st, st.heapArr(ghClosed, heapSorts[ghClosed]), ch)
+		for _, cl := range ct.OnClose {
+			if t, okk := x.evalSpecWith(st, cl.Expr, "inv", binds); okk {
+				st.add(Implies(closedNow, t))
+			}
+		}
+	}
 	st.add(rangeFacts(v, et)...)
 	x.allocFactsLoose(st, v, et)
 	x.typeInvFacts(st, v, et)
